@@ -487,8 +487,14 @@ fn part_s(cfg: Cfg, depth: usize, first: Op, out: &mut SeqOut) {
                         Op::AppendUnsigned if v.sig == "verify-fails" => "c16:seq:append-accepts-unsigned-block-1:verify-fails".to_string(),
                         op => format!("c16:seq:{}:{}", op_kind(op), v.sig),
                     };
+                    // keep the 3 shortest counterexamples per signature (a worker runs several tasks)
+                    let rec = nvc::report::ViolationRec { signature: sig.clone(), message: format!("cfg {cfg:?}, after {hist:?}: {}", v.msg), replay: json!({"part":"S","cfg":cfg,"ops":hist}) };
                     if out.violations.iter().filter(|x| x.signature == sig).count() < 3 {
-                        out.violations.push(nvc::report::ViolationRec { signature: sig, message: format!("cfg {cfg:?}, after {hist:?}: {}", v.msg), replay: json!({"part":"S","cfg":cfg,"ops":hist}) });
+                        out.violations.push(rec);
+                    } else if let Some(worst) = out.violations.iter_mut().filter(|x| x.signature == sig).max_by_key(|x| x.message.len()) {
+                        if rec.message.len() < worst.message.len() {
+                            *worst = rec;
+                        }
                     }
                 }
                 Ok((key, seq_key, new_block, commit_failed)) => {
@@ -994,6 +1000,7 @@ fn programs(thorough: bool) -> Vec<Program> {
     }
     v.push(Program { name: "2 commits, no embeddings, same key (merge off)".into(), merge: false, ws: vec![(None, k(&["a"]), TAct::Commit), (None, k(&["a"]), TAct::Commit)], pre_blocks: 1 });
     v.push(Program { name: "commit || rollback of another workspace (merge off)".into(), merge: false, ws: vec![(None, k(&["a"]), TAct::Commit), (None, k(&["b"]), TAct::Rollback)], pre_blocks: 0 });
+    v.push(Program { name: "commit || rollback of an orthogonal workspace the commit may merge (merge on)".into(), merge: true, ws: vec![(Some(0), k(&["a"]), TAct::Commit), (Some(1), k(&["b"]), TAct::Rollback)], pre_blocks: 0 });
     if thorough {
         v.push(Program { name: "3 commits, no embeddings, disjoint keys (merge off)".into(), merge: false, ws: vec![(None, k(&["a"]), TAct::Commit), (None, k(&["b"]), TAct::Commit), (None, k(&["c"]), TAct::Commit)], pre_blocks: 0 });
         v.push(Program { name: "3 commits, orthogonal embeddings (merge on)".into(), merge: true, ws: vec![(Some(0), k(&["a"]), TAct::Commit), (Some(1), k(&["b"]), TAct::Commit), (Some(2), k(&["c"]), TAct::Commit)], pre_blocks: 0 });
@@ -1011,6 +1018,13 @@ struct Built {
 }
 fn build(p: &Program) -> Built {
     env::set_thread_seed(4242);
+    thread_clock_reset();
+    // generate_tx_id() keeps a process-global same-millisecond counter; under the frozen clock it would grow
+    // from execution to execution, change the ids and with them the iteration order of the manager's
+    // HashMap (=> a different lock sequence for the same schedule prefix). One id drawn at another
+    // millisecond makes the next draw reset the counter, so every execution sees the same ids.
+    thread_clock_advance_ms(7);
+    let _ = tensor_chain::generate_tx_id();
     thread_clock_reset();
     let (chain, store) = mk_chain(p.merge);
     let mut pre = vec![];
@@ -1053,16 +1067,16 @@ struct WStats {
     seq: SeqOut,
 }
 
-fn quiescent_check(b: &Built, p: &Program, results: &[Option<Result<(), String>>]) -> Verdict {
+fn quiescent_check(b: &Built, p: &Program, results: &[Option<Result<u64, String>>]) -> Verdict {
     let states: Vec<TransactionState> = b.ws.iter().map(|w| w.state()).collect();
-    let res_s: Vec<String> = results.iter().map(|r| match r { Some(Ok(())) => "ok".into(), Some(Err(_)) => "err".into(), None => "-".to_string() }).collect();
+    let res_s: Vec<String> = results.iter().map(|r| match r { Some(Ok(0)) => "ok".into(), Some(Ok(h)) => format!("ok@height{h}"), Some(Err(_)) => "err".into(), None => "-".to_string() }).collect();
     let run = || -> Result<String, Viol> {
         let blocks = chain_structure(&b.chain)?;
         if let Err(e) = b.chain.verify() {
             return viol("verify-fails", format!("verify() fails at quiescence: {e}"));
         }
         for (i, r) in results.iter().enumerate() {
-            if matches!(p.ws[i].2, TAct::Commit) && matches!(r, Some(Ok(()))) && states[i] != TransactionState::Committed {
+            if matches!(p.ws[i].2, TAct::Commit) && matches!(r, Some(Ok(_))) && states[i] != TransactionState::Committed {
                 return viol("commit-ok-not-committed", format!("commit of workspace {i} returned Ok, its state is {:?}", states[i]));
             }
         }
@@ -1106,30 +1120,57 @@ fn quiescent_check(b: &Built, p: &Program, results: &[Option<Result<(), String>>
     }
 }
 
+type Check = Box<dyn FnOnce(&RunResult) -> Verdict>;
+/// fresh chain + prepared workspaces (built on a fresh OS thread so that entropy streams and hash seeds
+/// are the same in every execution), one body per workspace, and the quiescent checker
+fn mk_exec(prog: &Program) -> (Vec<Body>, Check) {
+    let p2 = prog.clone();
+    let built = Arc::new(std::thread::spawn(move || build(&p2)).join().expect("build thread"));
+    let results: Arc<Mutex<Vec<Option<Result<u64, String>>>>> = Arc::new(Mutex::new(vec![None; prog.ws.len()]));
+    let mut bodies: Vec<Body> = vec![];
+    for (i, (_, _, act)) in prog.ws.iter().enumerate() {
+        let (b, results, act) = (built.clone(), results.clone(), act.clone());
+        bodies.push(Box::new(move || {
+            let r = match act {
+                TAct::Commit => b.chain.commit(&b.ws[i]).map(|_| 0).map_err(|e| e.to_string()),
+                // observation: the height the thread sees right after its rollback returned
+                TAct::Rollback => b.chain.rollback(&b.ws[i]).map(|()| b.chain.height()).map_err(|e| e.to_string()),
+            };
+            results.lock().unwrap()[i] = Some(r);
+        }));
+    }
+    let (b, results, p3) = (built.clone(), results.clone(), prog.clone());
+    let check = Box::new(move |_r: &RunResult| {
+        let res = results.lock().unwrap().clone();
+        quiescent_check(&b, &p3, &res)
+    });
+    (bodies, check as Check)
+}
+fn conc_signature(p: &Program, message: &str) -> (String, String) {
+    let (sig, msg) = message.split_once('|').map_or(("c16:conc:thread-failure".to_string(), message.to_string()), |(a, b)| (a.to_string(), b.to_string()));
+    let sig = if message.starts_with("deadlock") {
+        "c16:conc:deadlock".to_string()
+    } else if message.starts_with("panic") {
+        "c16:conc:panic".to_string()
+    } else {
+        sig
+    };
+    let with_rollback = p.ws.iter().any(|w| matches!(w.2, TAct::Rollback));
+    let sig = match sig.strip_prefix("c16:conc:") {
+        Some(sym) if sym != "deadlock" && sym != "panic" && sym != "thread-failure" => {
+            if with_rollback {
+                format!("c16:conc:rollback-restores-begin-snapshot:{sym}")
+            } else {
+                format!("c16:conc:unserialized-commit:{sym}")
+            }
+        }
+        _ => format!("{sig}:{}", if with_rollback { "commit||rollback" } else { "commit||commit" }),
+    };
+    (sig, msg)
+}
 fn explore_program(p: &Program, bound: usize, part: (usize, usize), st: &mut WStats) {
     let prog = p.clone();
-    let stats = vsched::explore(&ExploreCfg { bound, part, max_execs: 3_000_000 }, || {
-        let p2 = prog.clone();
-        let built = Arc::new(std::thread::spawn(move || build(&p2)).join().expect("build thread"));
-        let results: Arc<Mutex<Vec<Option<Result<(), String>>>>> = Arc::new(Mutex::new(vec![None; prog.ws.len()]));
-        let mut bodies: Vec<Body> = vec![];
-        for (i, (_, _, act)) in prog.ws.iter().enumerate() {
-            let (b, results, act) = (built.clone(), results.clone(), act.clone());
-            bodies.push(Box::new(move || {
-                let r = match act {
-                    TAct::Commit => b.chain.commit(&b.ws[i]).map(|_| ()).map_err(|e| e.to_string()),
-                    TAct::Rollback => b.chain.rollback(&b.ws[i]).map_err(|e| e.to_string()),
-                };
-                results.lock().unwrap()[i] = Some(r);
-            }));
-        }
-        let (b, results, p3) = (built.clone(), results.clone(), prog.clone());
-        let check = Box::new(move |_r: &RunResult| {
-            let res = results.lock().unwrap().clone();
-            quiescent_check(&b, &p3, &res)
-        });
-        (bodies, check as Box<dyn FnOnce(&RunResult) -> Verdict>)
-    });
+    let stats = vsched::explore(&ExploreCfg { bound, part, max_execs: 3_000_000 }, || mk_exec(&prog));
     st.tasks += 1;
     st.executions += stats.executions;
     st.sched_points += stats.sched_points;
@@ -1146,30 +1187,12 @@ fn explore_program(p: &Program, bound: usize, part: (usize, usize), st: &mut WSt
     }
     st.violation_total += stats.violation_count;
     for v in stats.violations {
-        let (sig, msg) = v.message.split_once('|').map_or(("c16:conc:thread-failure".to_string(), v.message.clone()), |(a, b)| (a.to_string(), b.to_string()));
-        let sig = if v.message.starts_with("deadlock") {
-            "c16:conc:deadlock".to_string()
-        } else if v.message.starts_with("panic") {
-            "c16:conc:panic".to_string()
-        } else {
-            sig
-        };
-        let with_rollback = p.ws.iter().any(|w| matches!(w.2, TAct::Rollback));
-        let sig = match sig.strip_prefix("c16:conc:") {
-            Some(sym) if sym != "deadlock" && sym != "panic" && sym != "thread-failure" => {
-                if with_rollback {
-                    format!("c16:conc:rollback-restores-begin-snapshot:{sym}")
-                } else {
-                    format!("c16:conc:unserialized-commit:{sym}")
-                }
-            }
-            _ => format!("{sig}:{}", if with_rollback { "commit||rollback" } else { "commit||commit" }),
-        };
+        let (sig, msg) = conc_signature(p, &v.message);
         if st.violations.iter().filter(|x| x.signature == sig).count() < 3 {
             st.violations.push(nvc::report::ViolationRec { signature: sig, message: format!("{}: {msg} (thread schedule {}, {} preemptions)", p.name, rle(&v.threads), v.preemptions), replay: json!({"part":"T","program": p, "bound": bound, "choices": v.choices, "thread_schedule": v.threads}) });
         }
     }
-    if st.sample.is_none() && part.0 == 0 {
+    if st.sample.is_none() && part.0 == 0 && p.name == programs(false)[0].name {
         st.sample = Some(json!({"part":"T","program": p, "executions_in_this_partition": stats.executions, "distinct_outcomes": stats.outcomes.keys().collect::<Vec<_>>(), "first_schedule_len": stats.sample_schedule.len()}));
     }
 }
@@ -1222,14 +1245,33 @@ fn tasks(thorough: bool) -> Vec<Task> {
     }
     v
 }
-fn worker(i: usize, n: usize, thorough: bool) {
+fn task_cost(t: &Task, thorough: bool) -> u32 {
+    match t {
+        Task::S(ci, _, Op::Begin(_)) => 10 * 6u32.pow(s_depth(*ci, thorough) as u32 - 3),
+        Task::S(ci, _, Op::AppendSigned) => 3 * 6u32.pow(s_depth(*ci, thorough) as u32 - 3),
+        Task::S(..) => 1,
+        Task::T(pi, _) => {
+            let p = &programs(thorough)[*pi];
+            if bound_for(p, thorough) == 2 {
+                800
+            } else {
+                40 * p.ws.len() as u32
+            }
+        }
+    }
+}
+/// Workers claim tasks (most expensive first) by creating `<dir>/<index>` exclusively, so the load balances
+/// itself; which worker ran a task has no influence on any reported number.
+fn worker(_i: usize, _n: usize, thorough: bool, claims: &str) {
     vsched::quiet_panics();
     vsched::set_thread_init(|t| env::set_thread_seed(t as u64 + 1));
     let _ = rayon::ThreadPoolBuilder::new().num_threads(2).build_global();
     let mut st = WStats::default();
     let progs = programs(thorough);
-    for (idx, task) in tasks(thorough).into_iter().enumerate() {
-        if idx % n != i {
+    let mut order: Vec<(usize, Task)> = tasks(thorough).into_iter().enumerate().collect();
+    order.sort_by_key(|(i, t)| (std::cmp::Reverse(task_cost(t, thorough)), *i));
+    for (idx, task) in order {
+        if std::fs::OpenOptions::new().write(true).create_new(true).open(format!("{claims}/{idx}")).is_err() {
             continue;
         }
         match task {
@@ -1281,18 +1323,94 @@ fn run_selftest() -> ! {
     std::process::exit(if ok { 0 } else { 2 });
 }
 
+/// `check C16 --replay <file>`: re-run exactly the recorded case
+fn replay_case(rep: &mut Report, path: &str) {
+    let body: serde_json::Value = serde_json::from_str(&std::fs::read_to_string(path).expect("replay file")).expect("replay json");
+    let r = &body["replay"];
+    rep.sample(r.clone());
+    match r["part"].as_str().unwrap_or("") {
+        "S" | "R" => {
+            let cfg: Cfg = serde_json::from_value(r["cfg"].clone()).expect("cfg");
+            let ops: Vec<Op> = serde_json::from_value(r["ops"].clone()).expect("ops");
+            if r["part"] == "S" {
+                thread_clock_reset();
+                let mut s = Seq::fresh(cfg);
+                for (i, op) in ops.iter().enumerate() {
+                    let res = s.step(*op).and_then(|_| s.check());
+                    eprintln!("  step {i} {op:?}: {}", res.as_ref().map_or_else(|v| format!("VIOLATION {}: {}", v.sig, v.msg), |()| format!("ok (height {}, store {:?})", s.chain.height(), user_store(&s.store))));
+                    if let Err(v) = res {
+                        rep.violation(body["signature"].as_str().unwrap_or("c16:seq").to_string(), format!("after {:?}: {}", &ops[..=i], v.msg), r.clone());
+                        break;
+                    }
+                }
+            } else {
+                let sc = r["scenario"].as_u64().unwrap_or(1) as u8;
+                let (_, _, _, v) = replica_case(&block_seq(cfg, &ops), sc);
+                if let Some(v) = v {
+                    rep.violation(body["signature"].as_str().unwrap_or("c16:replica").to_string(), v.msg, r.clone());
+                }
+            }
+        }
+        "X" => {
+            let x = part_x(r.get("bit").is_some());
+            for (sig, msg, rp) in x.violations.iter().chain(std::iter::empty()) {
+                if rp == r {
+                    rep.violation(sig.clone(), msg.clone(), rp.clone());
+                }
+            }
+            if rep.violation_count() == 0 {
+                // more than 3 cases share a signature: look the case up in the full list
+                let tag = if let Some(b) = r.get("bit") { format!("block {}: bit {b} ", r["block"]) } else if let Some(m) = r["mutation"].as_str() { format!("block {}: {m} ", r["block"]) } else { String::new() };
+                for u in x.undetected_list.iter().filter(|u| !tag.is_empty() && u.contains(&tag)) {
+                    rep.violation(body["signature"].as_str().unwrap_or("c16:tamper").to_string(), format!("verify() still succeeds after: {u}"), r.clone());
+                }
+            }
+        }
+        "T" => {
+            vsched::quiet_panics();
+            vsched::set_thread_init(|t| env::set_thread_seed(t as u64 + 1));
+            let p: Program = serde_json::from_value(r["program"].clone()).expect("program");
+            let choices: Vec<usize> = serde_json::from_value(r["choices"].clone()).expect("choices");
+            let (bodies, check) = mk_exec(&p);
+            let run = vsched::run(&choices, bodies);
+            let message = if run.deadlock {
+                Some("deadlock: no enabled thread".to_string())
+            } else if let Some((t, m)) = run.panics.first() {
+                Some(format!("panic in thread {t}: {m}"))
+            } else if let Some(m) = &run.machinery {
+                rep.machinery(m.clone());
+                None
+            } else {
+                let v = check(&run);
+                eprintln!("  outcome: {}", v.outcome);
+                v.violation
+            };
+            if let Some(m) = message {
+                let (sig, msg) = conc_signature(&p, &m);
+                rep.violation(sig, format!("{}: {msg} (thread schedule {})", p.name, rle(&run.thread_schedule())), r.clone());
+            }
+        }
+        other => rep.machinery(format!("unknown replay part {other:?}")),
+    }
+}
+
 fn main() {
     env::require();
     env::clock_freeze(T0);
     let args = nvc::Args::parse();
     if let Some((i, n)) = args.worker {
-        worker(i, n, args.thorough());
+        worker(i, n, args.thorough(), &args.flag("claims").expect("--claims"));
         return;
     }
     if args.rest.iter().any(|a| a == "--selftest") {
         run_selftest();
     }
     let mut rep = Report::new("C16", "model_checking");
+    if let Some(path) = rep.args.replay.clone() {
+        rep.args.tier = "replayed".into(); // artefacts of a replay must not overwrite <tier>-N.json of the run
+        replay_case(&mut rep, &path);
+        rep.finish();
+    }
     let thorough = rep.thorough();
     let depth = if thorough { 6 } else { 5 };
     let bound = if thorough { "2 (2-thread programs) / 1 (3-thread programs)" } else { "1" };
@@ -1304,12 +1422,22 @@ fn main() {
     // Parts S and T run in worker processes (S: replay BFS per configuration x first operation; T: vsched)
     let t = env::real_now_s();
     let nprog = programs(thorough).len();
-    let results: Vec<WStats> = par::spawn_workers(par::worker_count().min(tasks(thorough).len()), &[]);
+    let claims = format!("{}/claims", env::scratch_root());
+    std::fs::create_dir_all(&claims).expect("claims dir");
+    let results: Vec<WStats> = par::spawn_workers(par::worker_count().min(tasks(thorough).len()), &[format!("--claims={claims}")]);
+    let claimed = std::fs::read_dir(&claims).map(|d| d.count()).unwrap_or(0);
+    if claimed != tasks(thorough).len() {
+        rep.machinery(format!("{claimed} of {} tasks were run", tasks(thorough).len()));
+    }
     let st_wall = env::real_now_s() - t;
     let mut tt = WStats::default();
     let mut state_hashes: HashSet<u64> = HashSet::new();
     let mut s = SeqOut::default();
     let mut seq_seen: HashSet<String> = HashSet::new();
+    let mut all_viol: Vec<nvc::report::ViolationRec> = vec![];
+    let mut results = results;
+    // task-to-worker assignment is dynamic: order everything that is order-sensitive
+    results.sort_by_key(|w| serde_json::to_string(&w.seq.tasks).unwrap_or_default() + &format!("{:?}", w.outcomes.keys().collect::<Vec<_>>()));
     for w in results {
         tt.tasks += w.tasks;
         tt.executions += w.executions;
@@ -1322,9 +1450,7 @@ fn main() {
             tt.outcomes.entry(k).or_default().extend(v);
         }
         tt.violation_total += w.violation_total;
-        for v in w.violations {
-            rep.violation(v.signature, v.message, v.replay);
-        }
+        all_viol.extend(w.violations);
         if tt.sample.is_none() {
             tt.sample = w.sample;
         }
@@ -1340,15 +1466,25 @@ fn main() {
         if w.seq.deepest.len() > s.deepest.len() {
             s.deepest = w.seq.deepest.clone();
         }
-        for v in w.seq.violations {
-            rep.violation(v.signature, v.message, v.replay);
-        }
+        all_viol.extend(w.seq.violations);
         for (c, h, k) in w.seq.seqs {
             if seq_seen.insert(k.clone()) {
                 s.seqs.push((c, h, k));
             }
         }
     }
+    // shortest counterexample first, at most 3 artefacts per signature
+    all_viol.sort_by_key(|v| (v.signature.clone(), v.message.len(), v.message.clone()));
+    let mut per_sig: BTreeMap<String, usize> = BTreeMap::new();
+    for v in all_viol {
+        let n = per_sig.entry(v.signature.clone()).or_default();
+        *n += 1;
+        if *n <= 3 {
+            // totals per part are in coverage.parts; which worker ran which task must not show here
+            rep.violation(v.signature, v.message, v.replay);
+        }
+    }
+    s.tasks.sort_by_key(|t| t.to_string());
     let s_states = state_hashes.len() as u64 + configs().len() as u64; // + the empty history of each configuration
     s.seqs.sort_by(|a, b| (a.1.len(), format!("{:?}", a.1)).cmp(&(b.1.len(), format!("{:?}", b.1))));
     rep.part("S", json!({"depth": depth, "tasks": s.tasks, "distinct_states": s_states, "transitions": s.transitions, "violating_transitions": s.violating, "commits_creating_a_block": s.commits_ok, "commits_without_block": s.commits_err, "wall_s_together_with_T": st_wall}));
